@@ -11,7 +11,7 @@ import math
 import numpy as np
 
 from mc.estimators import build, ncomp, build_via, ROUTES
-from mc.util import call, raised
+from mc.util import permuted_series, call, raised
 from models import numref as R
 
 ID = "C04"
@@ -82,16 +82,23 @@ def _spec(ci):
     return spec
 
 
-def _build(spec, ext, npts=4, route="ctor"):
+def _build(spec, ext, npts=4, route="ctor", fc_form="array"):
     kw = dict(spec[1])
     fs = kw.pop("force_sep", False)
     if fs:
         import verde as vd
         import warnings
         F_ = FSEP if fs is True else FSQ[:npts]
+        fce, fcn = np.array([p[0] for p in F_]), np.array([p[1] for p in F_])
+        if fc_form == "series":       # columns of a sorted / shuffled table: integer index that is a permutation of 0..n-1
+            fce, fcn = permuted_series(fce), permuted_series(fcn)
+        elif fc_form == "list":
+            fce, fcn = fce.tolist(), fcn.tolist()
+        elif fc_form == "2d" and fce.size % 2 == 0:
+            fce, fcn = fce.reshape(2, -1), np.asfortranarray(fcn.reshape(2, -1))
         with warnings.catch_warnings():
             warnings.simplefilter("ignore")
-            return vd.Spline(damping=kw.get("damping"), force_coords=(np.array([p[0] for p in F_]), np.array([p[1] for p in F_])))
+            return vd.Spline(damping=kw.get("damping"), force_coords=(fce, fcn))
     return build_via([spec[0], kw], ext, route)
 
 
@@ -230,9 +237,21 @@ def run(case, rec):
         variants["strided view"] = lambda a: np.repeat(a, 3)[::3]
         variants["reversed-twice view"] = lambda a: a[::-1].copy()[::-1]
         variants["pandas Series (non-default index)"] = lambda a: pd.Series(a.copy(), index=np.arange(a.size)[::-1] * 3 + 5)
+        # ... and with an index that is a PERMUTATION of 0..n-1, where access by label silently differs from access by position
+        variants["pandas Series (permuted index)"] = lambda a: permuted_series(a.copy())
         for name, f in variants.items():
             other = _run(rec, factory, (f(e), f(n)), [f(d) for d in data], (qe, qn), "layout " + name)
             _same(rec, base, other, tight, "layout %s" % name)
+        # Series for the data only / the coordinates only (alignment by label between a Series and an array must not happen)
+        other = _run(rec, factory, (e, n), [permuted_series(d.copy(), 1) for d in data], (qe, qn), "data Series")
+        _same(rec, base, other, tight, "data given as pandas Series with a permuted index, coordinates as arrays")
+        other = _run(rec, factory, (permuted_series(e.copy()), permuted_series(n.copy(), 2)), data, (qe, qn), "coordinate Series")
+        _same(rec, base, other, tight, "coordinates given as pandas Series with differently permuted indices, data as arrays")
+        if spec[1].get("force_sep"):
+            # the force coordinates of a Spline in other containers (seed C03-9)
+            for fc_form in ("series", "list", "2d"):
+                other = _run(rec, lambda: _build(spec, ext, npts, route, fc_form), (e, n), data, (qe, qn), "force_coords " + fc_form)
+                _same(rec, base, other, tight, "force_coords given as %s" % fc_form)
         # ignored extra coordinates appended (fit and predict)
         for nx in (1, 2):
             extra = tuple(np.arange(npts, dtype=float) * (k + 1) * 100 for k in range(nx))
@@ -242,6 +261,8 @@ def run(case, rec):
         # query as Fortran 2-D / Series
         other = _run(rec, factory, (e, n), data, (pd.Series(qe), pd.Series(qn)), "query Series")
         _same(rec, base, other, tight, "query given as pandas Series")
+        other = _run(rec, factory, (e, n), data, (permuted_series(qe.copy()), permuted_series(qn.copy(), 1)), "query Series permuted")
+        _same(rec, base, other, tight, "query given as pandas Series with permuted indices")
         return
     if fam == "dtype":
         qie = np.array([q[0] for q in QI], dtype=float); qin = np.array([q[1] for q in QI], dtype=float)
